@@ -427,6 +427,49 @@ def gen_case(rng, logic, fragment=None, p_example=0.3):
         prems = bulk_premises(rng, list(prems), refsem.get(logic).modal and fragment in (None, 'modal'))
     return prems, conc
 
+# -- scale sweep: n-fold repetition across sizes, with the answer known by construction
+
+SCALE_N = 20
+def scale_cases():
+    "(form, n, m, valid?) for n = 1..SCALE_N copies against m = n-1, n, n+1 items of the other kind."
+    out = []
+    for form in (0, 1):
+        for n in range(1, SCALE_N + 1):
+            for m in (n - 1, n, n + 1):
+                if m < 0: continue
+                for valid in (False, True):
+                    out.append((form, n, m, valid))
+    return out
+
+def scale_case(sem, case):
+    """Returns (premises, conclusion, counter-valuation or None). form 0: m distinct letters |- b v b v ... (n
+    copies); form 1: b & b & ... (n copies) |- c1 v ... v cm (m distinct letters). The valid variants
+    add the letter that settles it. The counter-valuation is checked by the caller's evaluator."""
+    form, n, m, valid = case
+    b = ('A', 1, 0)
+    others = [('A', (0, 2, 3, 4)[i % 4], i // 4) for i in range(max(m, 1))]
+    def fold(op, items):
+        s = items[-1]
+        for x in reversed(items[:-1]):
+            s = ('O', op, (x, s))
+        return s
+    T = 'T'
+    F = 'F'
+    if form == 0:
+        prems = list(others[:m])
+        conc = fold('Disjunction', [b] * n)
+        val = {x: T for x in prems}; val[b] = F
+        if valid:
+            prems.insert(len(prems) // 2, b)
+    else:
+        prems = [fold('Conjunction', [b] * n)]
+        items = others[:max(m, 1)]
+        conc = fold('Disjunction', items)
+        val = {x: F for x in items}; val[b] = T
+        if valid:
+            conc = fold('Disjunction', items[:len(items) // 2] + [b] + items[len(items) // 2:])
+    return prems, conc, (None if valid else val)
+
 def fragment_of(prems, conc):
     sents = list(prems) + [conc]
     m = any(refsem.has_modal(s) for s in sents)
